@@ -252,8 +252,8 @@ let () =
               let order = if next s = 0 then None else Some (rep s task) in
               let kind = nextn s in let res = nlist s in
               let evs = rep s levent in let db = rep s clause in let calls = rep s pcall in
-              let (((((((oc, oeq), leq), deq), ceq), pre), sok), born) = check_solver (table_provider u) p fuel efuel order kind res evs db calls in
-              Printf.sprintf "%d %s %s %s %s %d %s %d" (int_of_n oc) (b oeq) (b leq) (b deq) (b ceq) (int_of_n pre) (b sok) (int_of_n born)
+              let ((((((((oc, oeq), leq), deq), ceq), pre), sok), born), cperm) = check_solver (table_provider u) p fuel efuel order kind res evs db calls in
+              Printf.sprintf "%d %s %s %s %s %d %s %d %s" (int_of_n oc) (b oeq) (b leq) (b deq) (b ceq) (int_of_n pre) (b sok) (int_of_n born) (b cperm)
             | "propagates" ->
               (* db initial-watches asserted-clause-ids pevents -> calls-compared assignments-compared all-equal *)
               let db = rep s clause in let init = rep s owatch in let asserted = nlist s in let evs = rep s pevent in
